@@ -347,6 +347,20 @@ def matrix_spec(draw, names_pool):
         spec["entries"] = [list(e) for e in ent]
         if draw(st.booleans()) and r == c:       # make it exactly symmetric
             spec["entries"] += [[e[1], e[0], e[2], e[3]] for e in ent]
+        elif r == c and r >= 3 and draw(st.integers(0, 2)) == 0:
+            # connectivity-like: a few repeated values, every entry below the diagonal has a partner of the same
+            # value in the same row-as-column above it, but NOT at the mirrored place (square, not symmetric)
+            spec["entries"] = []
+            for _ in range(draw(st.integers(1, 4))):
+                j = draw(st.integers(0, r - 2))
+                i = draw(st.integers(j + 1, r - 1))
+                ks = [k for k in range(j + 1, r) if k != i]
+                if not ks:
+                    continue
+                k = draw(st.sampled_from(ks))
+                v = draw(st.sampled_from([1.0, 2.0, -1.0]))
+                spec["entries"] += [[i, j, v, v], [j, k, v, v]]
+            spec["form"] = None
     else:
         spec["r"], spec["c"] = draw(st.integers(1, 40)), draw(st.integers(1, 40))
         spec["pattern"] = draw(st.sampled_from(PATTERNS))
